@@ -14,7 +14,7 @@ import ast
 
 from ..core import AnalysisError, norm, loc, walk_no_nested, attr_chain, call_name, kwarg
 from ..schema import containment_schema
-from ..normalize import inline, canon, conjuncts, local_env, expand, ctext
+from ..normalize import inline, canon, conjuncts, local_env, expand, ctext, loopify, name_calls, _enclosing
 from ..core import func_params
 from ..cfg import CFG
 from .. import flow
@@ -270,7 +270,7 @@ def check_cp_remover(prog, rep, rule):
     rc0 = apg.methods.get('remove_cp_and_links')
     if rc0 is None:
         raise AnalysisError('remove_cp_and_links vanished')
-    rc = inline(prog, apg, rc0)
+    rc = name_calls(loopify(inline(prog, apg, rc0)), {'get_first_neighbor'})
     fq = 'ABCPropertyGraph.remove_cp_and_links'
     params = func_params(rc)
     idp = [p_ for p_ in params if p_ not in ('self', 'delete_parent')]
@@ -346,33 +346,37 @@ def check_cp_remover(prog, rep, rule):
                           f'only the first element of {role} is handled')
     # the two sharing conditions
 
-    def cond_on_len(var):
-        for n in ast.walk(rc):
-            if isinstance(n, ast.If) and any(isinstance(c, ast.Call) and call_name(c) == 'len' and c.args and isinstance(c.args[0], ast.Name) and same(c.args[0].id, var)
-                                             for c in ast.walk(n.test)):
-                return n
-        return None
-
     def len_eq(cj, var, k):
         return isinstance(cj, ast.Compare) and len(cj.ops) == 1 and isinstance(cj.ops[0], ast.Eq) and isinstance(cj.left, ast.Call) and call_name(cj.left) == 'len' \
             and cj.left.args and isinstance(cj.left.args[0], ast.Name) and same(cj.left.args[0].id, var) and isinstance(cj.comparators[0], ast.Constant) \
             and cj.comparators[0].value == k
-    ch = cond_on_len(roles['children'][0]) if 'children' in roles else None
-    lk = cond_on_len(roles['connected_interfaces'][0]) if 'connected_interfaces' in roles else None
-    rep.instance(rule, f'{fq}: sharing conditions {[norm(c.test) for c in (ch, lk) if c is not None]}')
+
+    def doom_conditions(role):
+        """conjuncts under which an element of the collection ``role`` is put on a deletion set (enclosing tests and guard
+        clauses of the ``<set>.add(<loop variable over role>)`` statement)"""
+        if role not in roles:
+            return None, None
+        for c in ast.walk(rc):
+            if isinstance(c, ast.Call) and call_name(c) == 'add' and c.args and isinstance(c.args[0], ast.Name):
+                ls = loop_source(c.args[0].id)
+                if ls is not None and same(ls, roles[role][0]):
+                    _, cs_ = _enclosing(c, rc)
+                    return c, [cj for c_ in cs_ for cj in conjuncts(canon(c_))]
+        return None, None
+    ch, ch_cjs = doom_conditions('parents')
+    lk, lk_cjs = doom_conditions('links')
+    rep.instance(rule, f'{fq}: sharing conditions {[[norm(c, 40) for c in x] for x in (ch_cjs, lk_cjs) if x is not None]}')
     okc = False
-    if ch is not None:
-        cjs = conjuncts(canon(ch.test))
-        okc = len(cjs) == 2 and any(len_eq(c, roles['children'][0], 1) for c in cjs) and any(isinstance(c, ast.Name) and c.id == 'delete_parent' for c in cjs)
+    if ch_cjs is not None and 'children' in roles:
+        okc = len(ch_cjs) == 2 and any(len_eq(c, roles['children'][0], 1) for c in ch_cjs) and any(isinstance(c, ast.Name) and c.id == 'delete_parent' for c in ch_cjs)
     if not okc:
-        rep.violation(rule, loc(amod, ch or rc), fq, f'parent condition {norm(ch.test) if ch else None}',
+        rep.violation(rule, loc(amod, ch or rc), fq, f'parent condition {[norm(c, 40) for c in ch_cjs] if ch_cjs is not None else None}',
                       'a parent interface goes with its child only when that child is its only one and the caller allows it')
     okl = False
-    if lk is not None:
-        cjs = conjuncts(canon(lk.test))
-        okl = len(cjs) == 1 and len_eq(cjs[0], roles['connected_interfaces'][0], 2)
+    if lk_cjs is not None and 'connected_interfaces' in roles:
+        okl = len(lk_cjs) == 1 and len_eq(lk_cjs[0], roles['connected_interfaces'][0], 2)
     if not okl:
-        rep.violation(rule, loc(amod, lk or rc), fq, f'link condition {norm(lk.test) if lk else None}',
+        rep.violation(rule, loc(amod, lk or rc), fq, f'link condition {[norm(c, 40) for c in lk_cjs] if lk_cjs is not None else None}',
                       'a link goes with a removed interface only when exactly one other interface is attached to it; a link '
                       'shared by three or more interfaces must survive the removal of one end')
     dp = [a for a in rc0.args.args if a.arg == 'delete_parent']
